@@ -237,6 +237,8 @@ class Gen:
                 self.features.add(k)
             elif k == 'marker':
                 self.emit(r.choice(['mark_clean', 'mark_dirty', 'is_clean', 'is_clean']), t=t)
+        if p.get('no_final'):
+            return self.ops
         # final: counts, full drain of every topic, empty polls, counts
         self.emit('counts')
         for t in self.topics:
